@@ -6,9 +6,11 @@ import (
 	"regexp"
 	"strconv"
 	"strings"
+	"unicode/utf16"
 
 	"github.com/ajitpratap0/GoSQLX/pkg/errors"
 	"github.com/ajitpratap0/GoSQLX/pkg/gosqlx"
+	"github.com/ajitpratap0/GoSQLX/pkg/linter"
 	"github.com/ajitpratap0/GoSQLX/pkg/sql/keywords"
 	"github.com/ajitpratap0/GoSQLX/pkg/sql/parser"
 )
@@ -685,7 +687,8 @@ func (h *Handler) handleFormatting(params json.RawMessage) ([]TextEdit, error) {
 	endLine := len(lines) - 1
 	endChar := 0
 	if endLine >= 0 && endLine < len(lines) {
-		endChar = len(lines[endLine])
+		// LSP characters are UTF-16 code units, not bytes
+		endChar = len(utf16.Encode([]rune(lines[endLine])))
 	}
 
 	return []TextEdit{
@@ -707,15 +710,41 @@ func formatSQL(sql string, opts FormattingOptions) string {
 
 	indent := ""
 	if opts.InsertSpaces {
-		indent = strings.Repeat(" ", opts.TabSize)
+		if opts.TabSize > 0 {
+			indent = strings.Repeat(" ", opts.TabSize)
+		}
 	} else {
 		indent = "\t"
 	}
 
+	// Lines (or line ends) that lie inside a multi-line string literal, quoted
+	// identifier or block comment are content: they are neither trimmed,
+	// re-indented nor dropped.
+	masks, startsInCode := linter.LineMask(sql)
+
 	currentIndent := ""
-	for _, line := range lines {
-		trimmed := strings.TrimSpace(line)
-		if trimmed == "" {
+	for i, line := range lines {
+		startInCode := i >= len(startsInCode) || startsInCode[i]
+		endInCode := true
+		if i < len(masks) && len(masks[i]) > 0 {
+			endInCode = masks[i][len(masks[i])-1]
+		} else if !startInCode {
+			endInCode = false // an empty line inside a literal or comment
+		}
+		if !startInCode {
+			kept := line
+			if endInCode {
+				kept = strings.TrimRight(line, " \t\r")
+			}
+			result = append(result, kept)
+			continue
+		}
+
+		trimmed := strings.TrimLeft(line, " \t")
+		if endInCode {
+			trimmed = strings.TrimSpace(line)
+		}
+		if strings.TrimSpace(trimmed) == "" {
 			continue
 		}
 
